@@ -213,8 +213,20 @@ func (p *pc) miller(P, Q []interface{}) (interface{}, error) {
 	return ptr(res[0]), reg.Err(res)
 }
 
+// finalExp calls FinalExponentiation(ms[0], ms[1:]...). The Miller-loop outputs are inputs: the call must
+// leave every one of them untouched (the caller may finish the same outputs again, alone or in another product).
 func (p *pc) finalExp(ms ...interface{}) interface{} {
-	return ptr(p.c.Pkg.F("FinalExponentiation", ms...)[0])
+	before := make([]interface{}, len(ms))
+	for i, m := range ms {
+		before[i] = reg.Clone(m)
+	}
+	out := ptr(p.c.Pkg.F("FinalExponentiation", ms...)[0])
+	for i, m := range ms {
+		if !reflect.DeepEqual(reflect.ValueOf(m).Elem().Interface(), reflect.ValueOf(before[i]).Elem().Interface()) {
+			panic(fmt.Sprintf("%s: FinalExponentiation with %d arguments modified its argument %d (a Miller-loop output owned by the caller)", p.c.Name, len(ms), i))
+		}
+	}
+	return out
 }
 
 // lines returns a fresh [][2][n]LineEvaluationAff with PrecomputeLines(Q_i) at index i.
@@ -659,6 +671,19 @@ func propPairing(t *rapid.T, p *pc) {
 	}
 	cmp(fmt.Sprintf("FinalExponentiation over %d sub-products", ng), p.finalExp(ms...))
 	cl = append(cl, fmt.Sprintf("split:%d_groups", ng))
+	if ng > 1 {
+		// the same Miller-loop outputs again: the same product a second time, and each output finished alone
+		// (product by the reference) - a call that accumulated into one of its arguments shows here
+		cmp(fmt.Sprintf("FinalExponentiation over the same %d sub-products, second call", ng), p.finalExp(ms...))
+		pr := gt.One()
+		for _, mg := range ms {
+			pr = gt.Mul(pr, flat(p.finalExp(mg)))
+		}
+		if !gt.Eq(pr, vv) {
+			t.Fatalf("%s: the product of FinalExponentiation(m_g) over the %d sub-products (outputs re-used after a joint call) differs from Pair (%s)", name, ng, key)
+		}
+		cl = append(cl, "variant:FinalExp_outputs_reused")
+	}
 
 	// (c) multi-pairing vs product of single pairings (multiplied by the reference)
 	prod := gt.One()
@@ -720,7 +745,7 @@ func propPairing(t *rapid.T, p *pc) {
 
 	// (c) bw6-761 only: the direct-extension Miller loop
 	if p.c.Pkg.Has("MillerLoopDirect") {
-		res := p.c.Pkg.F("MillerLoopDirect", p.sl(0, P), p.sl(1, Q))
+		res := p.callPQ("MillerLoopDirect", P, Q)
 		if e := reg.Err(res); e != nil {
 			t.Fatalf("%s: MillerLoopDirect returned error %v (%s)", name, e, key)
 		}
